@@ -1,9 +1,9 @@
 #!/bin/bash
-# usage: tools/verify_mutant.sh <Cxx> <A|B> [check ids...]   (works in the sub-agent's scratch worktree /tmp/mut/<Cxx>)
+# usage: tools/verify_mutant.sh <Cxx> <A|B> [check ids...]   (works in the sub-agent's scratch worktree ${MUT_DIR:-/tmp/mut}/<Cxx>)
 # 1 demo passes on the pristine worktree  2 patch applies  3 demo fails with it  4 the 475-test suite passes with it
 # 5 the given checks (default: the property's own) are run against the patched worktree via VERIF_REPO
 P="$1"; X="$2"; shift 2
-W=/tmp/mut/$P; LOG=$W/verify_$X.log
+W=${MUT_DIR:-/tmp/mut}/$P; LOG=$W/verify_$X.log
 CHECKS="${@:-$P}"
 cd $W || exit 2
 {
